@@ -4,7 +4,7 @@ from pathlib import Path
 from typing import NewType, Optional
 
 from zorg.domain.models import Note
-from zorg.shared import common as c
+from zorg.shared import common as c, dates as zdt
 
 Error = NewType("Error", str)
 
@@ -56,7 +56,7 @@ class FileManager:
         zpage = c.prepend_zdir(self._zdir, note.file_path)
         assert note.zid is not None
         for i, line in enumerate(zpage.read_text().split("\n")):
-            if f" {note.zid} " in line:
+            if _is_first_line_of_note(line, note.zid):
                 start_idx = i
                 break
         else:
@@ -68,3 +68,24 @@ class FileManager:
         new_zcontents = "\n".join(new_zlines)
         zpage.write_text(new_zcontents)
         return None
+
+
+def _is_first_line_of_note(line: str, zid: str) -> bool:
+    """Returns True iff {line} starts the note whose own ZID is {zid}.
+
+    A note's own ZID directly follows its type character, optional priority
+    and optional YYMMDD modify date. Other notes may merely mention it.
+    """
+    if not line.startswith(("- ", "o ", "~ ", "x ", "< ", "> ")):
+        return False
+    words = line.split()[1:]
+    if (
+        words
+        and len(words[0]) == 2
+        and words[0][0] == "P"
+        and words[0][1].isdigit()
+    ):
+        words.pop(0)
+    if words and zdt.is_short_date_spec(words[0]):
+        words.pop(0)
+    return bool(words) and words[0] == zid
